@@ -56,6 +56,11 @@ pub struct TrainSpec {
     pub use_cd_area_vec: bool,
     pub consist: Vec<ConUnit>,
     pub pdct: String,
+    #[serde(default = "freight")]
+    pub train_type: TrainType,
+}
+fn freight() -> TrainType {
+    TrainType::Freight
 }
 
 #[derive(Serialize, Deserialize, Clone, Debug, PartialEq)]
@@ -149,7 +154,7 @@ pub fn build_train_config(t: &TrainSpec) -> anyhow::Result<TrainConfig> {
     let n: HashMap<String, u32> = t.cars.iter().enumerate().map(|(i, c)| (format!("T{i}"), c.n)).collect();
     let total: u32 = t.cars.iter().map(|c| c.n).sum();
     let cd = if t.use_cd_area_vec { Some((0..total).map(|k| (3.0 + (k % 5) as f64 * 0.5) * uc::M2).collect()) } else { None };
-    TrainConfig::new(rvs, n, TrainType::Freight, t.length_override.map(|x| x * uc::M), t.mass_override.map(|x| x * uc::KG), cd)
+    TrainConfig::new(rvs, n, t.train_type, t.length_override.map(|x| x * uc::M), t.mass_override.map(|x| x * uc::KG), cd)
 }
 
 /// reference aggregates re-derived from the car list (independent of make_train_sim_parts)
@@ -259,6 +264,7 @@ pub fn gen_train_types(rng: &mut Rng, max_cars: u32, max_types: usize) -> TrainS
         cars,
         consist,
         pdct: if rng.chance(0.6) { "RESGreedy".into() } else { "Proportional".into() },
+        train_type: TrainType::Freight,
     }
 }
 
@@ -495,7 +501,7 @@ pub fn generate(rng: &mut Rng, focus: &str, thorough: bool) -> Case {
     if manual && rng.chance(0.2) {
         interval_changes.push((rng.usize(1, 200), *rng.pick(&[None, Some(1), Some(2), Some(5)])));
     }
-    Case {
+    let mut c = Case {
         links,
         route,
         train,
@@ -506,7 +512,10 @@ pub fn generate(rng: &mut Rng, focus: &str, thorough: bool) -> Case {
         init_time: if timed { 1000.0 } else if rng.chance(0.5) { 0.0 } else { Rng::round_sig(rng.range(0.0, 5000.0), 5) },
         sim_days: if rng.chance(0.5) { None } else { Some(*rng.pick(&[1, 7, 30])) },
         hash_seed: rng.next(),
-    }
+    };
+    // train type from the case's own random bits (no extra draw); it selects the per-type restriction set
+    c.train.train_type = crate::trk::type_from_bits(c.hash_seed >> 17);
+    c
 }
 
 // ------------------------------------------------------------------------------------------------
@@ -531,6 +540,46 @@ fn descriptive(e: &anyhow::Error) -> bool {
     let s = format!("{e:#}").to_lowercase();
     !s.trim().is_empty()
         && ["power", "brak", "contiguous", "offset", "speed", "limit", "force", "soc", "path", "link", "time step", "condition"].iter().any(|k| s.contains(k))
+}
+
+/// An error is an accepted way for a run to end, so it must not become the way out for a broken controller:
+/// when a speed-limited run ends with the "not sufficient power to move" family of errors, the stall is
+/// re-derived from the published consist limits, the reference resistance at the train's position and
+/// the documented force balance. `Some(text)` = the reference sees no stall (the error is spurious).
+fn spurious_stall(sim: &SpeedLimitTrainSim, e: &anyhow::Error, links: &[Link], route_delivered: &[usize], r: &TrainRef) -> Option<String> {
+    let msg = format!("{e:#}");
+    if !msg.contains("sufficient power to move") {
+        return None;
+    }
+    let st = &sim.state;
+    let (x, v, dt) = (st.offset.value, st.speed.value, st.dt.value);
+    let path_len: f64 = route_delivered.iter().map(|l| links[*l].length.value).sum();
+    let xb = x - r.length;
+    if !(xb >= -1e-9 && x <= path_len + 1e-9) {
+        return None;
+    }
+    let w = r.mass_static * G;
+    let (ef, eb) = (ref_elev(links, route_delivered, x), ref_elev(links, route_delivered, xb.max(0.0)));
+    let (cf, cb) = (ref_curve_net(links, route_delivered, x, CURVE), ref_curve_net(links, route_delivered, xb.max(0.0), CURVE));
+    let res = w * (ef - eb) / r.length + w * (cf - cb) / r.length + r.rolling_ratio * w + r.bearing + r.davis_b * v * w + r.cd_area * 1.225 * v * v;
+    let m = r.mass_static + r.mass_rot;
+    let tpm = dt / m;
+    let p_max = sim.loco_con.state.pwr_out_max.value.min((st.pwr_whl_out.value + sim.loco_con.state.pwr_rate_out_max.value * dt).max(0.0));
+    let a = v - res * tpm;
+    let v_max = 0.5 * (a + (a * a + 4.0 * tpm * p_max).sqrt());
+    let f_con = sim.loco_con.force_max().ok()?.value;
+    let target = st.speed_target.value;
+    let denom = target.min(v_max);
+    let f_pos = if denom > 0.0 { f_con.min(p_max / denom) } else { f_con };
+    let f_target = res + m * (target - v) / dt;
+    let v_new = v + tpm * (f_pos.min(f_target) - res);
+    // generous margins: the reference must be sure
+    let stalls = (v < 0.0447 * 1.02 && f_pos <= res * 1.02) || v_new < -1e-7;
+    if stalls {
+        None
+    } else {
+        Some(format!("speed {v}, target {target}, reference resistance {res:.0} N, consist force_max {f_con:.0} N, available power {p_max:.0} W => tractive force {f_pos:.0} N, next speed {v_new}"))
+    }
 }
 
 // ------------------------------------------------------------------------------------------------
@@ -835,7 +884,7 @@ impl Align {
 }
 
 fn check_limit_run(ctx: &mut Ctx, tr: &Traj, links: &[Link], route: &[usize], case_train: &TrainSpec, r: &TrainRef) {
-    let t = crate::net::TrainRefParams { length: r.length, speed_max: r.speed_max, towed_mass_static: r.towed, mass_per_brake: 0.0, axle_count: case_train.cars.iter().map(|c| c.axle_count as u32 * c.n).sum(), train_type: TrainType::Freight };
+    let t = crate::net::TrainRefParams { length: r.length, speed_max: r.speed_max, towed_mass_static: r.towed, mass_per_brake: 0.0, axle_count: case_train.cars.iter().map(|c| c.axle_count as u32 * c.n).sum(), train_type: case_train.train_type };
     let mut cache: Option<(usize, Vec<(f64, f64, f64)>)> = None;
     for k in 1..tr.states.len() {
         ctx.event = k;
@@ -1179,6 +1228,13 @@ pub fn execute(case: &Case, ctx: &mut Ctx) {
                     ctx.hit_dyn(format!("note.limit_err: {} [step {}]", first(e).chars().take(60).collect::<String>(), if rn.k == 0 { "0".to_string() } else { ">0".to_string() }));
                     if !descriptive(e) {
                         ctx.violate("C03", "limit_run", "Err names a cause", format!("error text: {:?}", format!("{e:#}").chars().take(200).collect::<String>()));
+                    }
+                    let n_deliv = tr.delivered.last().copied().unwrap_or(route.len()).min(route.len());
+                    if format!("{e:#}").contains("sufficient power to move") {
+                        ctx.hit("probe.walk.ended_with_stall_error");
+                    }
+                    if let Some(why) = spurious_stall(sim, e, links, &route[..n_deliv], &r) {
+                        ctx.violate("C03", "limit_run", "a reported stall is a stall", format!("run ended with {:?} after {} steps, but: {why}", first(e).chars().take(80).collect::<String>(), rn.k));
                     }
                 }
             }
